@@ -1023,3 +1023,76 @@ Proof.
   destruct H as [h [p [Hs _]]]. vm_compute in Hs. discriminate Hs.
 Qed.
 Close Scope string_scope.
+
+(* ---------------------------------------------------------------------------------------------
+   chooseProxyDialer: the second decision after re-routing
+   --------------------------------------------------------------------------------------------- *)
+Section Dial.
+  Variable is_ip : str -> bool.
+
+  Lemma decide_probe : forall mode outbound domain l,
+      let '(u, r, ad, ar, p) := decide is_ip mode outbound domain l in
+      p = true -> r = false /\ is_reserved outbound = false.
+  Proof.
+    intros. unfold decide. destruct (is_reserved outbound); cbn [negb andb]; try discriminate.
+    destruct domain; cbn [negb]; try discriminate.
+    destruct mode; try discriminate.
+    destruct (is_ip_like_domain is_ip (n :: domain)); try discriminate.
+    destruct (l_dns l); try discriminate.
+    destruct (l_real_known l); [destruct (l_real_real l); discriminate|]. auto.
+  Qed.
+
+  Lemma choose_step_asked : forall mode st outbound dst domain ka k6 hr ans,
+      let '(o, asked, _) := choose_step is_ip mode st outbound dst domain ka k6 hr ans in
+      asked = true -> o_reroute o = false /\ is_reserved outbound = false.
+  Proof.
+    intros. unfold choose_step.
+    destruct (has_dns_knowledge st (if d_is4 dst then ka else k6)) as [dns st_d].
+    destruct (lookup_real_domain_cache st_d domain) as [[known real] st_r].
+    set (l := {| l_dns := dns; l_real_known := known; l_real_real := real |}).
+    pose proof (decide_probe mode outbound domain l) as HP.
+    unfold choose_dial_target.
+    destruct (decide is_ip mode outbound domain l) as [[[[u r] ad] ar] p].
+    destruct (if u then domain_target is_ip dst domain else (dst_string dst, true)) as [target dial_ip].
+    cbn [o_probe o_asked_real o_asked_dns o_reroute].
+    destruct p.
+    - destruct (probe_and_update is_ip _ domain hr ans) as [asked st2]. intros _. apply HP. reflexivity.
+    - discriminate.
+  Qed.
+
+  Lemma cpr_reserved : is_reserved outbound_control_plane_routing = true.
+  Proof. vm_compute. reflexivity. Qed.
+
+  Lemma dial_ok : forall mode st evs outbound route_to dst domain ka k6 hr ans,
+      Inv st evs ->
+      let '(o, fin, asked, st') := choose_proxy_dialer is_ip mode st outbound route_to dst domain ka k6 hr ans in
+      let key := if d_is4 dst then ka else k6 in
+      let k := knowledge_now neg_ttl evs key domain (s_now st) in
+      fin = spec_final_outbound is_ip mode (is_reserved outbound) outbound route_to (classify is_ip domain) k /\
+      step_ok is_ip mode evs (s_now st) fin dst domain key o /\
+      Inv st' (evs ++ probe_events domain (s_now st) asked ans).
+  Proof.
+    intros mode st evs outbound route_to dst domain ka k6 hr ans HI. unfold choose_proxy_dialer.
+    pose proof (choose_step_ok is_ip mode st evs outbound dst domain ka k6 hr ans HI) as H1.
+    pose proof (choose_step_asked mode st outbound dst domain ka k6 hr ans) as HA.
+    destruct (choose_step is_ip mode st outbound dst domain ka k6 hr ans) as [[o1 asked1] st1].
+    destruct H1 as [HS1 [HI1 Hnow1]].
+    assert (HR : o_reroute o1 = spec_reroute is_ip mode (is_reserved outbound) (classify is_ip domain)
+                                             (knowledge_now neg_ttl evs (if d_is4 dst then ka else k6) domain (s_now st)))
+      by (destruct HS1 as [_ [HR _]]; exact HR).
+    unfold spec_final_outbound. rewrite <- HR.
+    assert (HC : ((if o_reroute o1 then outbound_control_plane_routing else outbound) =? outbound_control_plane_routing)%N
+                 = o_reroute o1 || (outbound =? outbound_control_plane_routing)%N).
+    { destruct (o_reroute o1); [apply N.eqb_refl | reflexivity]. }
+    rewrite HC.
+    destruct (o_reroute o1 || (outbound =? outbound_control_plane_routing)%N) eqn:E2.
+    - assert (Hna : asked1 = false).
+      { destruct asked1; auto. destruct (HA eq_refl) as [Hr Hres]. rewrite Hr in E2. cbn in E2.
+        apply N.eqb_eq in E2. rewrite E2 in Hres. rewrite cpr_reserved in Hres. discriminate. }
+      subst asked1. cbn [probe_events] in HI1. rewrite app_nil_r in HI1.
+      pose proof (choose_step_ok is_ip mode st1 evs route_to dst domain ka k6 hr ans HI1) as H2.
+      destruct (choose_step is_ip mode st1 route_to dst domain ka k6 hr ans) as [[o2 asked2] st2].
+      destruct H2 as [HS2 [HI2 _]]. rewrite Hnow1 in HS2, HI2. cbn [orb]. auto.
+    - auto.
+  Qed.
+End Dial.
